@@ -13,9 +13,24 @@ Definition TStr := nat.
 Definition TGen := list Z.
 Definition TObj := (Z * bool)%type.                      (* digest, picklable *)
 Definition tstate := state TF TStr TGen TObj TObj.
-Definition tjparams := jparams TF TStr TGen.
 Definition tcsv := csvtable TF.
+(* digests are modelled as perfect: the digest of a file IS its content *)
+Inductive tdig := DgS (x : option Z) | DgL (x : option Z) | DgC (t : tcsv) | DgH (h : h5file TF).
+Definition tjparams := jparams TF TStr TGen tdig.
 Definition tfolder := folder TF tjparams Z Z tcsv.
+
+Definition optZ_eqb (a b : option Z) : bool :=
+  match a, b with None, None => true | Some x, Some y => Z.eqb x y | _, _ => false end.
+Definition zmat_eqb (a b : list (list Z)) : bool := list_eqb (list_eqb Z.eqb) a b.
+Definition csvrow_eqb (a b : csvrow TF) : bool :=
+  let '(l1, b1, m1, p1) := a in let '(l2, b2, m2, p2) := b in Z.eqb l1 l2 && Z.eqb b1 b2 && Z.eqb m1 m2 && list_eqb Z.eqb p1 p2.
+Definition tdig_eqb (a b : tdig) : bool :=
+  match a, b with
+  | DgS x, DgS y | DgL x, DgL y => optZ_eqb x y
+  | DgC t, DgC u => Nat.eqb (t_ncols _ t) (t_ncols _ u) && list_eqb csvrow_eqb (t_rows _ t) (t_rows _ u)
+  | DgH h, DgH k => shape_eqb (h_shape _ h) (h_shape _ k) && zmat_eqb (h_rows _ h) (h_rows _ k)
+  | _, _ => false
+  end.
 
 Definition t_pick (x : TObj) : option Z := if snd x then Some (fst x) else None.
 Definition t_unpick (b : Z) : option TObj := Some (b, true).
@@ -23,14 +38,14 @@ Definition t_fresh_gen (_ : option Z) : TGen := [].
 Definition t_table_of (_ : TObj) : list (TStr * nat) := [].
 
 Definition T_save_with w : tfolder -> tstate -> sresult TF tjparams Z Z tcsv :=
-  save_with TF TStr TGen TObj TObj tjparams Z Z tcsv (fun p => p) t_pick t_pick (fun t => t) w.
+  save_with TF TStr TGen TObj TObj tjparams Z Z tcsv tdig DgS DgL DgC DgH (fun p => p) t_pick t_pick (fun t => t) w.
 Definition T_save := T_save_with (h5_write TF Z.eqb).
 Definition T_save_legacy := T_save_with (h5_write_legacy TF).
-Definition T_load : tfolder -> result (loaded TF TStr TGen TObj TObj) :=
-  load TF TStr TGen TObj TObj tjparams Z Z tcsv (fun p => Some p) t_unpick t_unpick (fun t => Some t).
+Definition T_load : tfolder -> result (loaded TF TStr TGen TObj TObj tdig) :=
+  load TF TStr TGen TObj TObj tjparams Z Z tcsv tdig tdig_eqb DgS DgL DgC DgH (fun p => Some p) t_unpick t_unpick (fun t => Some t).
 Definition T_restore : tfolder -> TStr -> result tstate :=
-  restore TF TStr TGen TObj TObj Nat.eqb tjparams Z Z tcsv (fun p => Some p) t_unpick t_unpick (fun t => Some t)
-          t_fresh_gen t_table_of.
+  restore TF TStr TGen TObj TObj Nat.eqb tjparams Z Z tcsv tdig tdig_eqb DgS DgL DgC DgH (fun p => Some p) t_unpick t_unpick
+          (fun t => Some t) t_fresh_gen t_table_of.
 Definition T_empty : tfolder := empty_folder TF tjparams Z Z tcsv.
 
 Definition tdb := db TF TStr TGen Z Z.
